@@ -23,7 +23,7 @@ META = {
     ),
     "C02": dict(
         level="exploration",
-        technique="runtime monitoring: probe Sound/Effect implementations (known per-frame signals, affine order-sensitive effects, call logs) through the real AudioManager/Renderer, compared per frame with an independent f64 model of the documented signal flow",
+        technique="runtime monitoring: probe Sound/Effect implementations (known per-frame signals, affine order-sensitive effects, call logs) through the real AudioManager/Renderer, compared per frame with an independent f64 model of the documented signal flow; thorough tier repeats the workload in an overflow-checked build",
         design_ref="DESIGN.md §3 C02",
         rule=("Random histories (12-40 callbacks of random sizes 1..3*ibs+5, internal buffer 1..333, 4 sample rates): add top-level and nested tracks (depth <= 4) with 0-2 affine probe effects, random send routes and volumes; play/stop probe sounds on any track or the main track; "
               "pause/resume tracks, set track/main volumes (instant tweens), drop tracks (with subtree) and send tracks. Every callback: each live, un-paused probe must be asked for exactly the callback's frames in slices <= ibs with dt == 1/sr (paused/removed ones for 0 frames); "
@@ -32,13 +32,13 @@ META = {
         domain="volumes -18..+3 dB, affine effects gain {1,0.5,-0.75,1.25,0.9} offset 0 or +-0.003, up to 3 sends; one pause-or-resume per track per callback interval (cross-kind ordering within an interval is C07's subject)",
         assumptions=["removal timing follows the rule stated in C08: next callback if already picked up, the one after otherwise", "built-in non-linear effects are covered by C13/C14"],
         quick=[rel(25)],
-        thorough=[rel(900)],
+        thorough=[rel(900), dict(engine="native-dev", shards=16, budget=120)],
         level_text="Per-frame comparison of the real mixer against an independent model over ~4x10^4 (quick) / 10^6 (thorough) random track/send/sound histories; exploration.",
         level_note="Trusts the harness model of the documented signal flow and the probe implementations of the public Sound/Effect traits.",
     ),
     "C03": dict(
         level="exploration",
-        technique="runtime monitoring: online trace-specification monitor of handle.state()/position()/track.num_sounds() and the gain of a DC sound after every callback, for command sequences enumerated exhaustively to a depth bound and generated randomly beyond",
+        technique="runtime monitoring: online trace-specification monitor of handle.state()/position()/track.num_sounds() and the gain of a DC sound after every callback, for command sequences enumerated exhaustively to a depth bound and generated randomly beyond; thorough tier repeats the workload in an overflow-checked build",
         design_ref="DESIGN.md §3 C03",
         rule=("A DC sound (static; 8 % of random cases streaming) on a capacity-1 sub-track, one internal buffer per callback. Exhaustive part: every command sequence up to depth 3 (quick) / 4 (thorough) over the alphabet {pause, resume, stop, resume_at(delayed), resume_at(clock)} x fade {0, 0.5, 1, 2.5 chunks} + "
               "{resume_at(delayed 0), resume_at(clock that no longer exists), seek_to, seek_by, set_volume, set_playback_rate} x issue gap {0,1,3 callbacks}, every 5th on a finite sound. Random part: up to 40 commands with random fades/delays, fade-in, delayed start, finite sounds, streaming sounds. "
@@ -50,13 +50,13 @@ META = {
         domain="at most one state command per callback interval (cross-kind ordering inside one interval is C07's subject); fades 0..6 chunks, delays 0..5 chunks",
         assumptions=["exhaustive:true refers to the enumeration of all command sequences up to the stated depth over the stated alphabet", "the most recent command wins until Stopped (kira lets pause/resume override a running Stopping); only Stopped is required to be final"],
         quick=[rel(30)],
-        thorough=[rel(1500)],
+        thorough=[rel(1500), dict(engine="native-dev", shards=16, budget=120)],
         level_text="Online trace monitor over every command sequence up to a depth bound plus ~10^5..10^6 random deep sequences on the real sounds through the real mixer; exploration beyond the bound.",
         level_note="Trusts the harness life-cycle automaton (written from the documentation) and the observation that one callback == one internal chunk in this rig.",
     ),
     "C04": dict(
         level="exploration",
-        technique="runtime monitoring: index-coded source frames with poison outside the slice, real Box<dyn Sound> from StaticSoundData::into_sound driven with MockInfoBuilder; independent transport + Hermite oracle; local successor/seek-landing trace monitor for commands",
+        technique="runtime monitoring: index-coded source frames with poison outside the slice, real Box<dyn Sound> from StaticSoundData::into_sound driven with MockInfoBuilder; independent transport + Hermite oracle; local successor/seek-landing trace monitor for commands; thorough tier repeats the workload in an overflow-checked build",
         design_ref="DESIGN.md §3 C04",
         rule=("(1) Exhaustive for total length 0..5 (quick) / 0..7 (thorough): every slice, start position 0..len+1, loop region start<end<=len or none, reverse on/off, rates {1,-1,0.5,2,1.5,0.37,-0.6}, chunk sizes {1,3,len+2}, device/sound rate pairs; "
               "(2) random lengths up to 1e5 with random slices, loops (incl. loop end == length, start inside/after the loop), rates, rate pairs; (3) long sounds at rate 1 with seek_to/seek_by/set_loop_region at random callback boundaries. "
@@ -69,7 +69,7 @@ META = {
         assumptions=["exhaustive:true refers to part (1), the enumeration of all small cases up to the stated length bound; parts (2),(3) are sampled",
                      "index codes are exact in f32 up to 2^24", "reverse playback measures the start position from the end (kira's documented test behaviour)"],
         quick=[rel(30)],
-        thorough=[rel(900)],
+        thorough=[rel(900), dict(engine="native-dev", shards=16, budget=120)],
         level_text="Complete enumeration of all small static-sound configurations up to a length bound against an independent transport/interpolator oracle, plus random large cases and command histories under a local trace monitor. Exploration: lengths beyond the bound are sampled.",
         level_note="Trusts the harness transport model (written from the property text) and the Hermite reference; MockInfoBuilder info; position/seek checks allow the 4-frame look-ahead window the property mentions.",
     ),
@@ -91,7 +91,7 @@ META = {
     ),
     "C06": dict(
         level="exploration",
-        technique="runtime monitoring: trace-specification monitor over kira::Parameter / tweener modulator driven with MockInfoBuilder, independent easing oracle; end-to-end gain envelopes through the renderer",
+        technique="runtime monitoring: trace-specification monitor over kira::Parameter / tweener modulator driven with MockInfoBuilder, independent easing oracle; end-to-end gain envelopes through the renderer; thorough tier repeats the workload in an overflow-checked build",
         design_ref="DESIGN.md §3 C06",
         rule=("Random scenarios: tweenable type (f64,f32,Decibels,Panning,PlaybackRate,Semitones,Mix,Vec3,Duration,ClockSpeed x3 units,Quat) or the tweener modulator; "
               "1-3 overlapping set() calls with duration {0, < one update, == one update, random}, every easing kind (powi 1..8, powf 0.1..8), start Immediate/Delayed(0)/Delayed/ClockTime (mock clock advancing, optionally paused before the target)/missing clock; "
@@ -102,7 +102,7 @@ META = {
         assumptions=["reference easing curves written independently from the Easing documentation", "timing slack of one update either side of the start instant for delayed/clock starts, as the property allows",
                      "ClockSpeed values are compared as physical speed (ticks/s), tolerance 1e-11 relative"],
         quick=[rel(25)],
-        thorough=[rel(600)],
+        thorough=[rel(600), dict(engine="native-dev", shards=16, budget=120)],
         level_text="Online monitor over ~10^5 (quick) / 10^7 (thorough) generated tween histories of the real Parameter/Tweener code with an independent oracle; exploration of an unbounded input space, not a proof.",
         level_note="Trusts the harness reference easing implementation and the MockInfoBuilder-provided clock info as a faithful stand-in for real clocks (C05 covers the real ones).",
     ),
@@ -141,7 +141,7 @@ META = {
     ),
     "C09": dict(
         level="exploration",
-        technique="runtime monitoring: differential lock-step execution of the real streaming and static Box<dyn Sound> on identical data, settings and command histories; decoder kept ahead via dec.* hooks (logical waiting)",
+        technique="runtime monitoring: differential lock-step execution of the real streaming and static Box<dyn Sound> on identical data, settings and command histories; decoder kept ahead via dec.* hooks (logical waiting); thorough tier repeats the workload in an overflow-checked build and under ThreadSanitizer",
         design_ref="DESIGN.md §3 C09",
         rule=("Random pairs: noise content of length 0..24k (quick) / 40k (thorough) frames (crossing the 16384-frame ring), slices, start positions, loop regions (incl. to the end), rates {1, 0, 0.1..4}, volume/panning, fade-in, delayed start, device/sound rate pairs, "
               "decoder packet plans (1, fixed 1..4096, variable, 4096/1/333) and seek granularities {1,8,64,1000,4096}; chunk sizes 1..512; random histories of set_volume/set_panning/set_playback_rate/pause/resume/resume_at(delayed)/stop with random tweens applied to both handles (no seeks). "
@@ -150,13 +150,13 @@ META = {
         domain="valid slices and loop regions (start<end<=len); non-negative rates; no seek commands (per the property)",
         assumptions=["a pair whose decoder does not reach ring-full/end within 5 s wall is inconclusive (counted, never a violation)", "ScriptedDecoder implements the public Decoder trait; seeks land on multiples of the granularity at or before the request"],
         quick=[rel(40)],
-        thorough=[rel(900)],
+        thorough=[rel(900), dict(engine="native-dev", shards=16, budget=120), dict(engine="tsan", shards=16, budget=120)],
         level_text="Lock-step differential oracle over ~5x10^3 (quick) / 2x10^5 (thorough) generated pairs with command histories; exploration.",
         level_note="Trusts that the static implementation is the reference behaviour (C04 checks it independently) and the hook-based 'decoder is ahead' gate.",
     ),
     "C10": dict(
         level="fault_enumeration",
-        technique="runtime monitoring with fault injection: ScriptedDecoder fails its k-th decode/seek call (exhaustively for short streams) in every scene x decoder pace; thread end decided from the decoder's Drop and dec.* hook activity; index-coded audio checked for gaps-only behaviour",
+        technique="runtime monitoring with fault injection: ScriptedDecoder fails its k-th decode/seek call (exhaustively for short streams) in every scene x decoder pace; thread end decided from the decoder's Drop and dec.* hook activity; index-coded audio checked for gaps-only behaviour; thorough tier repeats the workload in an overflow-checked build and under ThreadSanitizer",
         design_ref="DESIGN.md §3 C10",
         rule=("Exhaustive part: for scenes {main track, sub-track, paused track, stopped with fade} and every k <= 12 (quick) / 64 (thorough): the k-th decode call fails once, every decode call from the k-th on fails, the k-th seek call fails (construction, loop wraps), on streams sized so that the k-th call is made. "
               "Random part: scene in {main, sub-track, rejected by a full track, paused track, track dropped, manager dropped, handle dropped, stopped with fade, natural end} x pace {ahead, slow decode (300 us), stalled (gated through dec.step permits)} x fault x loop region x stop/drop moment. "
@@ -168,13 +168,13 @@ META = {
         domain="streams of 1..3000 frames (40000 for confirmations), packets 1..4096; excluded while listed as known findings: scene 'track dropped' (thread-end verdict) and multi-frame resume skips of starving paces (counted instead)",
         assumptions=["exhaustive:true refers to the enumeration of fault positions k for the stated scenes and bound", "thread end is observed through the ScriptedDecoder's Drop; wall-clock only bounds the inconclusive verdict"],
         quick=[rel(30)],
-        thorough=[rel(900)],
+        thorough=[rel(900), dict(engine="native-dev", shards=16, budget=120), dict(engine="tsan", shards=16, budget=120)],
         level_text="Every fault position up to a bound is injected into the real decode scheduler in several scenes, plus random scene/pace/fault combinations with real threads; liveness ('thread ends') is restated as bounded progress in hook-observed loop iterations.",
         level_note="Trusts the hook placement in DecodeScheduler and the ScriptedDecoder; schedules between the decoder thread and the harness are whatever the OS produces (sampled, not enumerated).",
     ),
     "C11": dict(
         level="exploration",
-        technique="runtime monitoring: metamorphic comparison of several renderings of one fixed-parameter scene under different internal buffer sizes, callback partitions and channel counts",
+        technique="runtime monitoring: metamorphic comparison of several renderings of one fixed-parameter scene under different internal buffer sizes, callback partitions and channel counts; thorough tier repeats the workload in an overflow-checked build",
         design_ref="DESIGN.md §3 C11",
         rule=("Random scenes of real components (static noise sounds with any rate/loop/pan/volume/reverse, track trees depth <= 3, up to 2 sends with routes, chains of the 8 built-in effects with fixed parameters incl. nested delays) are rendered once with internal buffer 128 / callbacks of 128 and three more times with "
               "buffer sizes from {1,2,3,7,16,64,128,333,1024,4096}, callback-size sequences (one-frame, non-multiples, 441, random 1..3*ibs) and 1..8 channels. Every frame is compared: bit-exact for scenes without recursive effects, <= 1e-6 otherwise; mono must be (L+R)/2 of the reference, extra channels silent. "
@@ -182,13 +182,13 @@ META = {
         domain="fixed parameters, no commands in flight, stable effect settings (loop gain < 1), degenerate settings listed under C13 are not generated",
         assumptions=["clocks/tweens/modulators are chunk-quantised by design and belong to C05/C06/C17"],
         quick=[rel(25)],
-        thorough=[rel(900)],
+        thorough=[rel(900), dict(engine="native-dev", shards=16, budget=120)],
         level_text="Metamorphic oracle over ~6x10^3 (quick) / 5x10^5 (thorough) scenes x 3 alternative renderings of the real renderer; exploration.",
         level_note="Trusts only equality between renderings of the same code (no reference model).",
     ),
     "C12": dict(
         level="exploration",
-        technique="runtime monitoring: model-based monitor over random track trees: DC sounds with power-of-two levels (the output level decodes exactly which sounds are audible), per-sound position continuity, num_sub_tracks and state() after every callback; start-delay extension under pauses; state() totality under pause/resume/resume_at histories",
+        technique="runtime monitoring: model-based monitor over random track trees: DC sounds with power-of-two levels (the output level decodes exactly which sounds are audible), per-sound position continuity, num_sub_tracks and state() after every callback; start-delay extension under pauses; state() totality under pause/resume/resume_at histories; thorough tier repeats the workload in an overflow-checked build",
         design_ref="DESIGN.md §3 C12",
         rule=("(a) Trees of 1-6 tracks (nested, persist_until_sounds_finish on/off) with 0-2 looping or finite DC sounds per track; histories of instant pause/resume and resume_at(delayed 2-9 chunks) on any node, handle drops of any node, sound stops, callbacks of 1-3 chunks. After every callback: the set of audible sounds (decoded from the summed DC level) equals the model "
               "(a paused track silences its whole subtree exactly; a dropped track is silent at the next callback unless it persists until its sounds have finished and been unloaded, or a descendant track is still alive); positions of sounds under a steadily paused track are constant and advance by exactly the callback's frames otherwise (continue exactly where they froze); "
@@ -197,13 +197,13 @@ META = {
         domain="instant fades in (a); fades 0..3 chunks in (b),(c); excluded while listed as known finding: dropping the clock a resume_at waits on (state() then panics)",
         assumptions=["a Stopped sound is unloaded at the next callback and the persisting track is examined before that, so it is removed one callback later", "DC levels 2^-(b+2) sum exactly in f32"],
         quick=[rel(30)],
-        thorough=[rel(600)],
+        thorough=[rel(600), dict(engine="native-dev", shards=16, budget=120)],
         level_text="Model-based monitoring of ~2x10^4 (quick) / 2x10^6 (thorough) random track-tree histories on the real mixer; exploration.",
         level_note="Trusts the harness model of the documented pause/removal rules.",
     ),
     "C13": dict(
         level="exploration",
-        technique="runtime monitoring: metamorphic relations between runs of fresh Box<dyn Effect> instances (dry identity, silence, finiteness, exact homogeneity, noise-calibrated superposition, partition independence)",
+        technique="runtime monitoring: metamorphic relations between runs of fresh Box<dyn Effect> instances (dry identity, silence, finiteness, exact homogeneity, noise-calibrated superposition, partition independence); thorough tier repeats the workload in an overflow-checked build",
         design_ref="DESIGN.md §3 C13",
         rule=("Random effect specifications over all 8 built-in effects (delay with 0-2 nested feedback effects), parameters drawn from documented ranges plus their edges (mix -0.5/0/1/1.5, resonance 0/1, cutoff 0/1 Hz/Nyquist/2xNyquist, Q 0/0.01/20, gain +-24 dB, -60/-80 dB, zero attack/release), "
               "8 sample rates 8k..192k, internal buffer sizes 1..1024, 8 signal classes (noise, impulses, step, DC, full-scale square, denormals, sine, burst then silence), random partitions into process calls. Each case checks one law on fresh instances built through the public EffectBuilder::build: "
@@ -213,13 +213,13 @@ META = {
         assumptions=["effects are driven as the mixer drives them: init(sr, ibs) once, then on_start_processing + process on slices <= ibs with MockInfoBuilder info",
                      "superposition tolerance is calibrated per instance from E(s*x)/s - E(x) (s = 1+2^-7+2^-13) with a 64x margin; gross non-homogeneity (> 5 %) is itself reported"],
         quick=[rel(35)],
-        thorough=[rel(900)],
+        thorough=[rel(900), dict(engine="native-dev", shards=16, budget=120)],
         level_text="Metamorphic oracles over ~4x10^5 (quick) / ~10^7 (thorough) generated (effect, parameters, signal, partition) cases of the real effect code; exploration of an unbounded space.",
         level_note="Trusts the harness signal generators and that MockInfoBuilder info equals what effects see in the mixer for fixed parameters.",
     ),
     "C14": dict(
         level="exploration",
-        technique="runtime monitoring: measured sine-probe gains, DC/Nyquist gains, impulse responses and step responses of real Box<dyn Effect> instances compared with closed forms and with independent f64 reference implementations of the cited algorithms",
+        technique="runtime monitoring: measured sine-probe gains, DC/Nyquist gains, impulse responses and step responses of real Box<dyn Effect> instances compared with closed forms and with independent f64 reference implementations of the cited algorithms; thorough tier repeats the workload in an overflow-checked build",
         design_ref="DESIGN.md §3 C14",
         rule=("Random parameter cells x 8 sample rates. Filter: 3 sine probes vs analytic |H| of the bilinear (pre-warped) SVF, plus mapping-free checks at the requested hertz: LP/HP gains cross at the cutoff, notch nulls there, band-pass peaks there, LP DC gain and HP Nyquist gain 0 dB +-0.05. "
               "EQ: bell centre gain / low-shelf DC gain / high-shelf Nyquist gain == requested dB +-0.1 with the opposite band at 0 dB, 3 sine probes vs SvfLinearTrapOptimised2 response. Volume/panning/distortion: point-wise against the dB, equal-power and clip laws (4e-6). "
@@ -229,7 +229,7 @@ META = {
         assumptions=["reference models were written from the cited sources (Simper/Cytomic SVF papers, Freeverb) and from kira's documentation, not from kira's code paths; the resonance->k mapping (k = 2 - 1.9 res) is taken from the cited baseplug example",
                      "sine gains are measured by quadrature over a whole number of periods after 12 time constants of settling"],
         quick=[rel(35)],
-        thorough=[rel(900)],
+        thorough=[rel(900), dict(engine="native-dev", shards=16, budget=120)],
         level_text="Measured behaviour of the real effects on ~10^5 (quick) / 10^6 (thorough) generated settings against closed forms and independent references; exploration, the parameter space is continuous.",
         level_note="Trusts the harness reference implementations and measurement procedure (tolerances stated in the rule).",
     ),
@@ -252,7 +252,7 @@ META = {
     ),
     "C16": dict(
         level="exploration",
-        technique="runtime monitoring: probe effect recording the sample rate it was told vs the dt it is processed with over exhaustively enumerated add/change/callback histories and scheduler-enumerated interleavings of the add-track race; seconds/hertz quantities measured on renderings at 8 device rates and across mid-stream rate changes",
+        technique="runtime monitoring: probe effect recording the sample rate it was told vs the dt it is processed with over exhaustively enumerated add/change/callback histories and scheduler-enumerated interleavings of the add-track race; seconds/hertz quantities measured on renderings at 8 device rates and across mid-stream rate changes; thorough tier repeats the workload under ThreadSanitizer",
         design_ref="DESIGN.md §3 C16",
         rule=("(A) every history of length <= 5 (quick) / 6 (thorough) over {add_sub_track with/without effects, TrackHandle::add_sub_track with/without effects, add_spatial_sub_track, nested add_spatial_sub_track, add_send_track, change_sample_rate, callback} plus random histories of 6..24 ops (internal buffer 1/7/16/64): at every Effect::process, round(1/dt) must equal the last rate given to init/on_change_sample_rate, and after the history every processed probe was last told the device rate. "
               "(A') for each of the 7 add-track paths, all interleavings (depth-first over the controlled scheduler, yield points game.add, hook track.add.loaded, audio.change, audio.cb) of one add call with 1 or 2 {rate change, callback} pairs on the renderer thread; same invariant. "
@@ -263,7 +263,7 @@ META = {
         assumptions=["the rate-in-force invariant is judged on a harness Effect implementation; built-in effects are covered by the delay/filter measurements",
                      "reverb and compressor time constants are not measured here (C14 measures them per rate)"],
         quick=[rel(30)],
-        thorough=[rel(600), dict(engine="native-dev", shards=16, budget=120)],
+        thorough=[rel(600), dict(engine="native-dev", shards=16, budget=120), dict(engine="tsan", shards=16, budget=60)],
         exhaustive_quick=False,
         level_text="All add/change/callback histories up to length 5 (quick) / 6 (thorough) and all interleavings of the add-track race are enumerated against a probe monitor; second/hertz measurements sample ~10^4 (quick) / 10^6 (thorough) rate cells. Exploration: longer histories and the continuous parameter space are sampled.",
         level_note="Trusts the harness probe Effect and the controlled scheduler (only hook sites and explicit yields are scheduling points).",
@@ -286,7 +286,7 @@ META = {
     ),
     "C18": dict(
         level="exploration",
-        technique="runtime monitoring: independent WAV encoder + strict RIFF reader as oracle for StaticSoundData::from_cursor; file-frame follower (every streamed output frame must be the next file frame, the loop start, or the landing frame of the oldest pending seek) on the real Symphonia decoder and decoder thread kept ahead through the dec.* hooks; corruption/truncation outcomes judged against the independent reader; AddressSanitizer build in the thorough tier",
+        technique="runtime monitoring: independent WAV encoder + strict RIFF reader as oracle for StaticSoundData::from_cursor; file-frame follower (every streamed output frame must be the next file frame, the loop start, or the landing frame of the oldest pending seek) on the real Symphonia decoder and decoder thread kept ahead through the dec.* hooks; corruption/truncation outcomes judged against the independent reader; AddressSanitizer build in the thorough tier; ThreadSanitizer build in the thorough tier",
         design_ref="DESIGN.md §3 C18",
         rule=("(F) WAV files from the harness encoder (u8/i16/i24/i32/f32/f64, 1/2/3/6 channels, 9 rates incl. 1 and 12345 Hz, lengths 0/1/odd/1151..1154/up to 20000, plain or WAVE_FORMAT_EXTENSIBLE headers, fact/unknown/LIST chunks around the data, odd chunk sizes): from_cursor must give the encoded rate, frame count and every sample (exact for f32, f32-rounded for f64, <= 1 LSB for integers), mono in both channels, UnsupportedChannelConfiguration for > 2 channels; StreamingSoundData::num_frames must agree. "
               "(S) index-coded WAVs (3000..71500 frames, every frame unique and non-zero) streamed at rate 1 with slices, start positions, loop regions and up to 3 seek_to commands (incl. targets next to the decoder's current packet): the output must follow the loaded frames as described, every seek issued while the decoder thread lives must land on the frame a static sound lands on, the sound must end after the last frame of the file/slice and report no error; the shipped assets (ogg, wav) likewise, from 0 strictly. "
@@ -296,13 +296,13 @@ META = {
         assumptions=["the decoder is kept ahead of playback (the harness waits for two dec.wait hook hits, an end or an error before every callback); starvation is C10's subject",
                      "integer sample scaling conventions: (s-128)/128, s/2^15, s/2^23, s/2^31"],
         quick=[dict(engine="native-rel", shards=64, budget=40, parallel=64)],
-        thorough=[dict(engine="native-rel", shards=64, budget=900, parallel=64), dict(engine="asan", shards=32, budget=300, parallel=32)],
+        thorough=[dict(engine="native-rel", shards=64, budget=900, parallel=64), dict(engine="asan", shards=32, budget=300, parallel=32), dict(engine="tsan", shards=32, budget=120, parallel=32)],
         level_text="Oracle-judged decoding of ~10^4 (quick) / 10^6 (thorough) generated, corrupted and shipped files through the real Symphonia glue and decoder thread; exploration.",
         level_note="Trusts the harness WAV encoder/reader (they are checked against each other on every generated file) and the dec.* hook observations used to keep the decoder ahead.",
     ),
     "C19": dict(
         level="exploration",
-        technique="runtime monitoring: exhaustive f32 sweeps + dense boundary-biased sampling of the public conversion functions against independent f64 oracles",
+        technique="runtime monitoring: exhaustive f32 sweeps + dense boundary-biased sampling of the public conversion functions against independent f64 oracles; thorough tier repeats the workload in an overflow-checked build",
         design_ref="DESIGN.md §3 C19",
         rule=("Decibels::as_amplitude and Frame::panned are walked over f32 bit patterns in numeric order (thorough: all 2^32, "
               "quick: every 61st plus +-2048 neighbours of each boundary); semitones, clock speeds, ClockTime (+,- with u64/f64, "
@@ -315,7 +315,7 @@ META = {
         assumptions=["f64 powf/sqrt of the Rust std library as reference", "tolerance for as_amplitude is the f32 conditioning bound eps*(2+|dB/20|*ln10)",
                      "exhaustive:true refers to the two f32 sweeps (thorough tier); the f64 domains are sampled"],
         quick=[rel(20)],
-        thorough=[rel(600)],
+        thorough=[rel(600), dict(engine="native-dev", shards=16, budget=120)],
         level_text="Every f32 input of the two f32 functions is evaluated (thorough) and judged by an oracle; f64 domains are sampled densely with boundary bias. Exploration, not proof: the f64 spaces are not enumerable.",
         level_note="Trusts the harness oracles (f64 reference arithmetic) and that release-build float semantics equal the user's build.",
     ),
